@@ -3,3 +3,5 @@
 from simverif.engines import dssim  # noqa: F401
 from simverif.engines import irsim_engine  # noqa: F401
 from simverif.engines import solversim  # noqa: F401
+from simverif.engines import drvsim  # noqa: F401
+from simverif.engines import streamsim  # noqa: F401
